@@ -565,7 +565,7 @@ def run(tier, seed):
                     "patterns from the typed generator (exhaustive pairs of axes for the small types on i,i-> / i,i->i); non-trivial = some operand has a non-physical axis, a diagonal or an expanded (stride-0) dimension; distinct by full case data" % n_sigs,
                signatures_enumerated=n_sigs, histogram=hist, verdicts=verdicts, kernel_reevaluated=kern,
                theorem_certificate=dict(cases=n_cert, verdicts=cert_hist,
-                                        meaning="0 = the decidable premises of C07_patterned_eq_dense_partial / C07_zero_result_partial hold for the case (soundness and completeness); 1 = only those of the soundness half; other = the theorem does not apply (see notes)",
+                                        meaning="0 = the decidable premises of C07_patterned_eq_dense_partial / C07_zero_result_partial hold for the case (soundness and completeness); 1 = only those of the soundness half; other = the theorem does not apply (see notes). Run-time cross-check of C07_cert_premises_typed, which proves verdict 0 for every run on operands typed over good index types",
                                         viterbi_cases=sum(vcert_hist.values()), viterbi_verdicts=vcert_hist,
                                         viterbi_meaning="as above for the Viterbi variant, plus the premises of C07_argmax (5 = pointer premises fail)"),
                samples=samples, open_items=OPEN_ITEMS)
@@ -576,9 +576,9 @@ def _jsonable_case(c):
     return _jsonable(c)
 
 OPEN_ITEMS = [
-    "C07_patterned_eq_dense (full statement: for all typed operands) is proved under decidable premises about the case: the substitution computed by unify is functional, acyclic, size-preserving and complete by the counting criterion; default_to/freshen preserve the denotations (cert_pre). The harness evaluates them on every case (coverage.theorem_certificate); their derivation from typing is the open tier-B C06_unify_complete and C06's open refinement of default_to/freshen (bounded: C07_cert_holds_upto12)",
-    "fuel sufficiency of the model (unify / clone / stride under a substitution): a divergence would show as verdict 13",
-    "post_init of the result (size-1 output axes) is modelled and model-checked; the theorems are stated for the tensor before __post_init__ together with the guard that makes it the identity",
+    "C07_patterned_eq_dense_typed is premise-free for operands typed over GOOD index types (every atom >= 1, every sum type of size >= 2; size-1 atoms are erased as __post_init__ does). Not covered by it, and still only covered by the per-case certificate (coverage.theorem_certificate) together with C07_patterned_eq_dense_partial / C07_zero_result_partial: operands with a zero-size index (the zero-size exit), index types with a sum type of size 1 (C06_unify_size1_sum_refuted), and operands that are not typed alike at a shared index",
+    "the typed theorems are stated for runs on which the model answers (einsum_model ... = Ok p): 'the model never answers Fail OutOfFuel on typed operands' is open (the fuel formulas efuel / sfuel of the model versus the type-derived bound tyfuel; same open item as C06/C13, notes/UNIFY.md section 3.1). A divergence would show as verdict 13 / 9; fuel monotonicity (C06_unify_fuel_monotone) makes every theorem about answers independent of the fuel",
+    "the link between the harness's typed generator and the judgement ty of Proofs/Axis_typed.v is by construction of the generator and the sound checker ty_b on the enumerated universes (C06_typed_universe_upto12); no check function evaluates ty_b per einsum case, the per-case certificate remains the run-time cross-check",
 ]
 
 def _fix(x):
@@ -623,7 +623,7 @@ def replay(path):
 
 MANIFEST = dict(
     level="proof",
-    text="Coq theorems about a Gallina model of fggs.indices.einsum / log_viterbi_einsum_forward / project and fggs.equation.reduce_equation / post_einsum: the dense specification (empty list = one, zero-size summed index = zero, permutation invariance), the patterned algorithm equals the specification on the operands' denotations (re-indexing of the sum over virtual indices by the injective physical parametrisation; soundness half without the completeness premise; under decidable premises evaluated per case), reduce_equation is sound, the Viterbi pointers attain the maximum and are eval of the summed axes at the physical argmax (also for repeated output indices, repaired in /repo 3f6a623), mv/mm are instances. The model is tied to /repo by running both on generated signatures x typed patterns x 4 semirings x requires_grad; the specification applied to brute-force denotations judges every implementation output inside Coq (exact carriers).",
+    text="Coq theorems about a Gallina model of fggs.indices.einsum / log_viterbi_einsum_forward / project and fggs.equation.reduce_equation / post_einsum: the dense specification (empty list = one, zero-size summed index = zero, permutation invariance), the patterned algorithm equals the specification on the operands' denotations (re-indexing of the sum over virtual indices by the injective physical parametrisation; soundness half without the completeness premise; under decidable premises evaluated per case; WITHOUT premises for operands typed in a common context over good index types: C07_patterned_eq_dense_typed, all exits, any defaults, shared axes, __post_init__ included -- every certificate premise is derived from typing (C07_cert_premises_typed: the substitution is well typed and acyclic, unify is complete along the loop, default_to/freshen preserve the denotation), also mv/mm (C07_mv_typed, C07_mm_typed) and the Viterbi pointers (C07_argmax_typed)), reduce_equation is sound, the Viterbi pointers attain the maximum and are eval of the summed axes at the physical argmax (also for repeated output indices, repaired in /repo 3f6a623), mv/mm are instances. The model is tied to /repo by running both on generated signatures x typed patterns x 4 semirings x requires_grad; the specification applied to brute-force denotations judges every implementation output inside Coq (exact carriers).",
     note="Known finding F23: log_viterbi_einsum_forward computes +inf + -inf = nan (torch_semiring_einsum's plain addition). Trusted: Coq kernel + vm_compute, extraction cross-checked against vm_compute, the Python harness (numbering of PhysicalAxis objects, reading of torch storage/strides, exp reading of the Log semiring within 1e-9), torch_semiring_einsum as the dense einsum under test.",
     technique="Coq proof (model + theorems) + model/implementation correspondence with a verified dense-specification oracle + per-case evaluation of the theorem's decidable premises",
     design_ref="DESIGN.md section 6, C07; section 7; Appendix A.6")
